@@ -65,7 +65,8 @@ BaseRow == [home |-> TRUE, acct |-> 1, mev |-> FALSE, fee |-> BaseFee, perf |-> 
 MinOf(S) == CHOOSE x \in S : \A y \in S : x <= y
 MaxOf(S) == CHOOSE x \in S : \A y \in S : y <= x
 
-CurOf(r) == [home |-> r.home, acct |-> r.acct, mev |-> r.mev]
+\* traits are attributes of the chain accounts: a validator without any account carries none
+CurOf(r) == [home |-> r.home, acct |-> r.acct, mev |-> r.mev /\ (r.home \/ r.acct # 0)]
 \* createNewSnapshot: bonded, unjailed validators that support all active chains, with a copy of their chain infos
 SnapOf(c) == [v \in Vals |-> IF c[v].home THEN [member |-> TRUE, acct |-> c[v].acct, mev |-> c[v].mev]
                                         ELSE [member |-> FALSE, acct |-> 0, mev |-> FALSE]]
@@ -206,7 +207,7 @@ SetRow(v, r) ==
 
 \* a validator changes its registration on the target chain; the snapshot is not rebuilt
 Rereg(v, a, mv) ==
-  /\ cur' = [cur EXCEPT ![v].acct = a, ![v].mev = mv]
+  /\ cur' = [cur EXCEPT ![v].acct = a, ![v].mev = mv /\ (cur[v].home \/ a # 0)]
   /\ res' = "rereg"
   /\ UNCHANGED <<snap, fee, perf, queue, nextId, nrows>>
 
